@@ -17,7 +17,10 @@ P("C23",
              "acceptance) for every move that is between the two sides OR inside one side with non-overlapping ranges. "
              "c23_domain_is_complement_of_findings: for accepted moves the hypothesis of the copy theorem is exactly the negation "
              "of the three known-finding shapes (F-C23-1 size not a multiple, F-C23-2 buffer below a granularity, F-C23-3 same "
-             "side overlapping), each with its _refuted witness confirmed on the real component. Model and implementation are "
+             "side overlapping), each with its _refuted witness confirmed on the real component. The run-time classifier of F-C23-2 is "
+             "NARROWER than the theorem's cls_buffer: it matches only a buffer below the DESTINATION granularity (the recorded defect); "
+             "a buffer below the SOURCE granularity streams correctly on the real code, is outside the proved domain, and is covered by "
+             "directed and random cases of the tie (a failure there is reported, not classified). Model and implementation are "
              "compared exactly: every helper result (incl. panics), and per tick all drained requests with their generated IDs, "
              "acknowledgments, progress and active flags, the memory images at every acknowledgment and at the end. "
              "F-C23-3 is left as a known finding: rejecting overlapping same-side moves at parse time would turn moves that work "
